@@ -13,8 +13,8 @@ CHECKS["C14"] = {
     },
     "covers": {"quick": ["ZZ_C14_Quick:C14.done", "ZZ_C14_WriteSequence:C14.write.done"], "thorough": ["ZZ_C14_Quick:C14.done", "ZZ_C14_Thorough:C14.done", "ZZ_C14_WriteSequence:C14.write.done"]},
     "bounds": {
-        "quick": "payload length 0..16, with/without PDU session container; QFI (assumed < 64), PDU type (< 16), TEID (32 bit) and every payload byte symbolic; Gtp5g.WritePacket called twice on one driver object with payload lengths 0..5 each, with/without QFI, every datagram checked on its own",
-        "thorough": "payload length 0..64 plus 1400 and 1500, with/without extension; same symbolic inputs; three WritePacket calls in a row",
+        "quick": "payload length 0..16, 239..260 (the length field carries into its high octet at total length 256), 1400 and 1500, with/without PDU session container; QFI (assumed < 64), PDU type (< 16), TEID (32 bit) and every payload byte symbolic; Gtp5g.WritePacket called twice on one driver object with payload lengths 0..5, 243, 244 or 1400 each, with/without QFI, every datagram checked on its own",
+        "thorough": "payload length 0..64 and windows of 22 lengths ending 4 above 256, 512, 1024, 1400, 1500 and 9000, with/without extension; same symbolic inputs; three WritePacket calls in a row",
     },
     "outside": "flag combinations other than 0x34; payloads above 65527 bytes (length field wraps); more than one extension header",
     "assumptions": ["QFI < 64 and PDU type < 16 (the ranges the property quantifies over)",
@@ -56,9 +56,10 @@ CHECKS["C04"] = {
                        "ZZ_C04_DeleteNode:C04.delete.hit", "ZZ_C04_DeleteNode:C04.delete.miss", "ZZ_C04_DeleteLocal:C04.delete.hit",
                        "ZZ_C04_Reset:C04.reset.done", "ZZ_C04_RemoteSess:C04.remotesess.done",
                        "ZZ_C04_ModifyHeader:C04.mod.done", "ZZ_C04_DeleteHeader:C04.del.done",
-                       "ZZ_C04_ReportRspZero:C04.reportrsp0.hit", "ZZ_C04_ReportRspZero:C04.reportrsp0.miss"]},
+                       "ZZ_C04_ReportRspZero:C04.reportrsp0.hit", "ZZ_C04_ReportRspZero:C04.reportrsp0.miss",
+                       "ZZ_C04_ReassocMoved:C04.moved.released", "ZZ_C04_ReassocMoved:C04.moved.kept"]},
     "bounds": {
-        "quick": "one-step induction: every SEID-table shape of length <= 3 (any nil pattern, any free-list permutation, any owner assignment over 2 nodes, symbolic CP SEIDs) x one operation (lookup, node lookup, new, delete via node, delete local, node reset, remote lookup, Modification/Deletion request header, Session Report Response with SEID 0 for a symbolic CP SEID and either peer) with unconstrained 64-bit SEID arguments",
+        "quick": "one-step induction: every SEID-table shape of length <= 3 (any nil pattern, any free-list permutation, any owner assignment over 2 nodes, symbolic CP SEIDs) x one operation (lookup, node lookup, new, delete via node, delete local, node reset, remote lookup, Modification/Deletion request header, Session Report Response with SEID 0 for a symbolic CP SEID and either peer) with unconstrained 64-bit SEID arguments; plus one history through the handlers: association, optional session, association again under the same Node ID from the same or another of three addresses, establishment with a symbolic CP SEID, SEID-0 report response from the current or the earlier address",
         "thorough": "same with table length <= 4",
     },
     "outside": "tables longer than the bound; more than two control-plane nodes",
@@ -231,9 +232,9 @@ CHECKS["C16"] = {
         "thorough": [{"pkg": "internal/forwarder", "entries": ["ZZ_C16_*"], "witnesses": 12, "max_paths": 3000000, "budget_s": 3000}],
     },
     "covers": {"all": ["ZZ_C16_Templates:C16.translated", "ZZ_C16_Templates:C16.rejected", "ZZ_C16_NearMiss:C16.nearmiss.done", "ZZ_C16_Bytes:C16.bytes.done",
-                       "ZZ_C16_ViaPDI:C16.pdi.done", "ZZ_C16_Tokens:C16.tokens.done", "ZZ_C16_Tokens:C16.tokens.cut", "ZZ_C16_Tokens:C16.tokens.missing"]},
+                       "ZZ_C16_ViaPDI:C16.pdi.done", "ZZ_C16_Tokens:C16.tokens.done", "ZZ_C16_Tokens:C16.tokens.cut", "ZZ_C16_Tokens:C16.tokens.missing", "ZZ_C16_Tokens:C16.tokens.exchanged"]},
     "bounds": {
-        "quick": "24 rule templates (keywords fixed, every decimal digit symbolic): both directions, 'ip' or 1-3 protocol digits, addresses any/assigned/host/prefix with 1-3 digits per octet and 1-2 prefix digits, port lists of 0-2 items with 1-5 digits each, single/multiple blanks and tabs, each for uplink and downlink; near-miss keywords of 1-4 symbolic printable bytes at each of 4 keyword positions; arbitrary ASCII strings of <= 6 bytes; token-level damage (5 templates that between them hold every kind of word: the text cut after k words for every k, or any one word missing) - rejected unless only a port list is gone, never a fault; the rule through newPdi with the SDF Filter IE before or after the Source Interface IE, for Access and Core",
+        "quick": "24 rule templates (keywords fixed, every decimal digit symbolic): both directions, 'ip' or 1-3 protocol digits, addresses any/assigned/host/prefix with 1-3 digits per octet and 1-2 prefix digits, port lists of 0-2 items with 1-5 digits each, single/multiple blanks and tabs, each for uplink and downlink; near-miss keywords of 1-4 symbolic printable bytes at each of 4 keyword positions; arbitrary ASCII strings of <= 6 bytes; token-level damage (5 templates that between them hold every kind of word: the text cut after k words for every k, any one word missing, or any two neighbouring words exchanged) - rejected unless only a port list is gone, never a fault; the rule through newPdi with the SDF Filter IE before or after the Source Interface IE, for Access and Core",
         "thorough": "plus all pairs of digit counts for two octets and the prefix length, two 8-item port lists, arbitrary strings of <= 8 bytes",
     },
     "outside": "IPv6 addresses, digit-count combinations not listed, non-ASCII bytes, free strings longer than 8 bytes; 'deny' rules (the driver supports permit only)",
@@ -307,7 +308,7 @@ CHECKS["C20"] = {
     "pregen": "gen_c20",
     "jobs": {
         "quick": [{"pkg": "internal/forwarder", "entries": ["ZZ_C20_*"], "witnesses": 8, "max_paths": 100000},
-                  {"pkg": "pkg/factory", "entries": ["ZZ_C20_*"], "witnesses": 10000, "max_paths": 100000}],
+                  {"pkg": "pkg/factory", "entries": ["ZZ_C20_*"], "witnesses": 12000, "max_paths": 100000}],
         "thorough": [{"pkg": "internal/forwarder", "entries": ["ZZ_C20_*"], "witnesses": 24, "max_paths": 100000},
                      {"pkg": "pkg/factory", "entries": ["ZZ_C20_*"], "witnesses": 20000, "max_paths": 1000000}],
     },
@@ -315,7 +316,7 @@ CHECKS["C20"] = {
                        "ZZ_C20_NewDriver:C20.driver.started", "ZZ_C20_NewDriver:C20.driver.rejected", "ZZ_C20_NewDriver:C20.driver.open-failed",
                        "ZZ_C20_ReadConfig:C20.readconfig.accepted", "ZZ_C20_ReadConfig:C20.readconfig.rejected",
                        "ZZ_C20_Document:C20.document.accepted", "ZZ_C20_Document:C20.document.rejected"]},
-    "bounds": {"quick": "version strings [v]X.Y.Z with 1-2 symbolic digits per field (16 templates) through the real Gtp5g.checkVersion / gtp5gnl.GetVersion / DecodeVersion and go-version's LessThan / GreaterThanOrEqual, oracle = the property's window hard-wired; kernel faults; NewDriver over 5 configuration shapes x open success/failure with a symbolic MTU; ReadConfig with a symbolic failure Boolean per stage; configuration documents: a valid reference document with every choice of up to 2 faults among 17 fields (version, pfcp, pfcp.addr, nodeID, retransTimeout, maxRetrans, gtpu, forwarder, ifList, its addr/type/mtu, dnnList, its dnn/cidr, logger, level) x 7 kinds (deleted, emptied, invalid or out of range, mistyped, another valid value, near miss with something appended to a valid value, near miss with something in front of it; for the node id: an IPv6 literal) through ReadConfig with the validator model GENERATED from the struct tags of the working tree; oracle = the property's definition of a valid configuration written out by hand (zzSpecAccepts); every explored document (about 6 900) is replayed natively as a YAML file through the real yaml.v2, govalidator and ReadConfig",
+    "bounds": {"quick": "version strings [v]X.Y.Z with 1-2 symbolic digits per field (16 templates) through the real Gtp5g.checkVersion / gtp5gnl.GetVersion / DecodeVersion and go-version's LessThan / GreaterThanOrEqual, oracle = the property's window hard-wired; kernel faults; NewDriver over 5 configuration shapes x open success/failure with a symbolic MTU; ReadConfig with a symbolic failure Boolean per stage; configuration documents: a valid reference document with every choice of up to 2 faults among 17 fields (version, pfcp, pfcp.addr, nodeID, retransTimeout, maxRetrans, gtpu, forwarder, ifList, its addr/type/mtu, dnnList, its dnn/cidr, logger, level) x 7 kinds (deleted, emptied, invalid or out of range, mistyped, another valid value, near miss with something appended to a valid value, near miss with something in front of it; for the node id: an IPv6 literal) - and, when a fault sits in an interface or DNN entry, that entry either alone or second in its list behind an entry without fault - through ReadConfig with the validator model GENERATED from the struct tags of the working tree; oracle = the property's definition of a valid configuration written out by hand (zzSpecAccepts); every explored document (about 10 200) is replayed natively as a YAML file through the real yaml.v2, govalidator and ReadConfig",
                "thorough": "same with up to 3 faults per document (88 486 documents, 20 000 of them replayed natively)"},
     "outside": "PARTIAL: configuration documents other than fault-perturbations of the one reference document (arbitrary YAML, unknown keys, several list entries, anchors/merges); validator tags outside the modelled vocabulary required/optional/in/host/cidr/ip/ipv4/dns/matches(small regex subset) (the check is then inconclusive, exit 2); node ids that are host names needing DNS; pre-release / metadata version suffixes; versions with more than 2 digits per field or other than 3 fields",
     "assumptions": FWD_ASSUME + ["go-version NewVersion/Compare replaced in the engine by Go-source models (overlays/go-version/version.go = the original file plus the models); the version harness is replayed natively against the real library",
@@ -337,7 +338,7 @@ CHECKS["C07"] = {
                        "ZZ_C07_FlowDescTokens:C07.flowdesc.done", "ZZ_C07_Churn:C07.churn.done"]},
     "bounds": {"quick": "(c) header SEID through the loop: Modification, Deletion and a Session Report Response to an outstanding report with an unconstrained 64-bit header SEID from either peer, both drivers. (a) envelope: after a valid prefix (association, a bystander session, a second session created and deleted; for the dispatched-type entries also a fresh server with nothing associated) ONE datagram of n fully symbolic octets from the associated or from an unknown peer goes through the real receive path (rcvCh -> go-pfcp message.Parse with its header, message and IE decoders -> transactions -> dispatcher -> handlers -> driver): every n in 0..12 with all 256 message types, and every n in 8..14 with the message type fixed to one of the six that go-upf dispatches (1, 5, 50, 52, 54, 57); afterwards a Heartbeat from the other peer must be answered with the right type and sequence number and the bystander must be intact unless the datagram is a Modification/Deletion carrying its SEID or an Association Setup. "
                         "(d) missing IEs: a complete Establishment (Node ID, CP F-SEID, Create FAR with Forwarding Parameters, Create QER/URR/BAR, Create PDR with PDI incl. SDF filter), a Modification (Update/Query/Create/Remove groups) after a complete establishment, and an Association Setup, from which the solver removes every choice of up to 2 nodes of the IE tree (top-level IEs, whole groups, children, nested groups and their children: 33 / 31 / 3 nodes), both drivers. "
-                        "(b) IE payload sweep through the real event loop (PfcpServer.main + receiver as coroutines, marshalled datagrams) after an association and a bystander session: for each of 39 leaf IE types that go-upf or the gtp5g driver decodes (Node ID, F-SEID, and the children of Create/Update PDR, PDI, FAR, Forwarding Parameters, QER, URR, BAR) one IE with a symbolic payload of every length 0..nominal+2 inside an otherwise well-formed Establishment and a following Modification, with the no-op driver and with the gtp5g driver on the simulated kernel; afterwards a Heartbeat must be answered and the bystander intact. SDF Filter: flow-description octets ASCII; FD length field <= payload length or >= 256 (e) session churn: after an association, 5 well-formed requests out of {Establishment, Deletion of SEID 1/2/3, Association Setup again} in every order through the real loop with the no-op driver - each answered, establishments accepted, a Heartbeat answered afterwards. (f) flow-description text damaged at word level (cut after k words, one word missing; 5 templates with symbolic digits) in the SDF Filter of a Create PDR through the gtp5g driver on the simulated kernel",
+                        "(b) IE payload sweep through the real event loop (PfcpServer.main + receiver as coroutines, marshalled datagrams) after an association and a bystander session: for each of 39 leaf IE types that go-upf or the gtp5g driver decodes (Node ID, F-SEID, and the children of Create/Update PDR, PDI, FAR, Forwarding Parameters, QER, URR, BAR) one IE with a symbolic payload of every length 0..nominal+2 inside an otherwise well-formed Establishment and a following Modification, with the no-op driver and with the gtp5g driver on the simulated kernel; afterwards a Heartbeat must be answered and the bystander intact. SDF Filter: flow-description octets ASCII; FD length field <= payload length or >= 256 (e) session churn: after an association, 5 well-formed requests out of {Establishment, Deletion of SEID 1/2/3, Association Setup again} in every order through the real loop with the no-op driver - each answered, establishments accepted, a Heartbeat answered afterwards. (f) flow-description text damaged at word level (cut after k words, one word missing, two neighbouring words exchanged; 5 templates with symbolic digits) in the SDF Filter of a Create PDR through the gtp5g driver on the simulated kernel",
                "thorough": "(d) up to 3 removed nodes; (a) every n in 0..16 with all message types, every n in 8..18 with a dispatched type, and for n <= 14 also the same octets delivered twice (retransmission of a possibly malformed request); (b) same with the SDF Filter FD length field unconstrained (every feasible value up to the buffer capacity is a path); (e) 7 requests"},
     "outside": "raw datagrams longer than the stated n (up to the 1500-octet maximum), and more than one raw datagram per history; several malformed IEs in one message beyond what fits in n octets; non-ASCII flow-description text; the kernel's UDP stack (datagrams enter at rcvCh, exactly as the receiver goroutine forwards them); header-SEID addressing is decided under C04 (ZZ_C04_ModifyHeader / DeleteHeader with an unconstrained 64-bit SEID); churn histories longer than 5 / 7 requests or with more than one peer",
     "assumptions": PFCP_ASSUME + FWD_ASSUME,
